@@ -80,6 +80,7 @@ def run_pair(spec, harness, model, lines):
 
 
 def minimise(spec, harness, model, line, kind, budget=300):
+    budget = getopt(spec, "MINIMISE_BUDGET", budget)
     shrink = getopt(spec, "shrink", default_shrink)
     cur = line
     improved = True
@@ -90,7 +91,7 @@ def minimise(spec, harness, model, line, kind, budget=300):
         for c in shrink(cur):
             if c != cur and len(c) < len(cur):
                 cands.append(c)
-            if len(cands) >= 64:
+            if len(cands) >= min(64, budget):
                 break
         if not cands:
             break
@@ -208,7 +209,7 @@ def pipeline(spec, pid, tier, seed, replay, keep, t0, no_evidence):
         reported_keys = set()
         known_printed = set()
         corr_broken = []
-        for (l, i, m, k, why) in failing[:40]:
+        for (l, i, m, k, why) in failing[:getopt(spec, "MAX_REPORT", 40)]:
             lm = minimise(spec, harness, model, l, k)
             ii, mm = run_pair(spec, harness, model, [lm])
             i2, m2 = ii[0], mm[0]
@@ -224,7 +225,8 @@ def pipeline(spec, pid, tier, seed, replay, keep, t0, no_evidence):
                         print("KNOWN-FINDING: property=%s %s" % (pid, known[fid]["description"]))
                         res.known.append(fid)
                     continue
-                key = fid or (why2, i2)
+                import re as _re
+                key = fid or _re.sub(r"[0-9]+", "N", why2 or "")
                 if key in reported_keys:
                     continue
                 reported_keys.add(key)
